@@ -156,14 +156,6 @@ def more_stream(ctx, cirq, mods):
     for ri, tags in sorted(failed.items()):
         r = rows[ri]
         replay = dict(kind='more', stream=r['stream'], key=r['key'], failed=tags)
-        if r.get('kind') == 'boolham':
-            if 'doc' not in tags and 'shape' not in tags:
-                continue        # equals the class docstring exactly (then the other reading is irrelevant)
-            if 'conv' not in tags and 'shape' not in tags:
-                # differs from the class docstring, but is the __init__ docstring's sign at half the angle, up to a global phase
-                ctx.violation('gate:BooleanHamiltonianGate:docstring-sign-and-phase',
-                              r['what'] + ' is not sum_x e^{+i t/2 sum_k f_k(x)} |x><x| (class docstring); it is e^{-i t/2 sum_k f_k(x)} up to a global phase', replay)
-                continue
         if r.get('kind') == 'parallel' and tags == ['shape'] and r['dim'] != 2:
             # the matrix is the documented tensor power (dimension d^n) but the reported qid_shape is that of qubits
             ctx.violation('gate:ParallelGate:qid_shape-of-qudit-sub-gate',
